@@ -1,6 +1,7 @@
 package coreutils
 
 import (
+	"bytes"
 	"iter"
 
 	"go.etcd.io/bbolt"
@@ -14,9 +15,16 @@ type boltBucket struct {
 func (b boltBucket) Iter() iter.Seq2[[]byte, []byte] {
 	return func(yield func([]byte, []byte) bool) {
 		c := b.Cursor()
-		for k, v := c.First(); k != nil; k, v = c.Next() {
+		for k, v := c.First(); k != nil; {
+			key := bytes.Clone(k)
 			if !yield(k, v) {
 				return
+			}
+			// the bucket may have been modified during the yield (e.g. the
+			// current key deleted), which invalidates the cursor's position:
+			// continue with the first key after the one just visited
+			if k, v = c.Seek(key); bytes.Equal(k, key) {
+				k, v = c.Next()
 			}
 		}
 	}
